@@ -71,7 +71,7 @@ theorem tiny3 {sqrt : α → α} (hs : SqrtSpec sqrt) (X Y Z m S : α) (hm : 0 <
   have := hm.ne'
   field_simp
 
-/-- closes `0 ≤ T ∧ T * T = x*x + y*y + z*z` for the scaled (`lengthTiny`) sub-tree `T` of `Vec3::length` -/
+-- closes `0 ≤ T ∧ T * T = x*x + y*y + z*z` for the scaled (`lengthTiny`) sub-tree `T` of `Vec3::length`
 set_option hygiene false in
 local macro "tiny3tac " hs:ident : tactic =>
   `(tactic| (split_ifs <;> first
